@@ -26,6 +26,7 @@ var scGuards = guardTable{
 
 	"BlockCache.cache":         {kind: "lock", lock: "BlockCache.mu", reason: "plain map under mu"},
 	"BlockCache.blockHash":     {kind: "lock", lock: "BlockCache.mu", reason: "rewritten by SetBlockHash under mu"},
+	"BlockCache.committed":     {kind: "lock", lock: "BlockCache.mu", reason: "set by StateCache.commit under the block's mu, read by Get under mu"},
 	"BlockCache.mu":            {kind: "mutex"},
 	"BlockCache.main":          {kind: "immutable", reason: "set by the constructor only"},
 	"BlockCache.prevBlockHash": {kind: "immutable", reason: "set by the constructor only"},
